@@ -26,9 +26,9 @@ AnswerAst(cs) ==
       norm   |-> Norm(t),
       exact  |-> r.ok /\ r.v = t /\ rs.ok /\ rs.v = t,
       thm    |-> RoundTripOf(t, {}),
-      dev    |-> [ProxyFlagNotPrinted   |-> ReadNorm(PrintD(Norm(t), {"ProxyFlagNotPrinted"})),
-                  FixedNameSingleQuoted |-> ReadNorm(PrintD(Norm(t), {"FixedNameSingleQuoted"})),
-                  Both |-> ReadNorm(PrintD(Norm(t), {"ProxyFlagNotPrinted", "FixedNameSingleQuoted"}))]]
+      dev    |-> [ProxyFlagNotPrinted   |-> ReReadUnder(t, {"ProxyFlagNotPrinted"}),
+                  FixedNameSingleQuoted |-> ReReadUnder(t, {"FixedNameSingleQuoted"}),
+                  Both |-> ReReadUnder(t, {"ProxyFlagNotPrinted", "FixedNameSingleQuoted"})]]
 
 VARIABLE i
 Init == i = 0
